@@ -102,6 +102,12 @@ class Svc(Service):
         CAP['args'] = (a,)
         return Ignored('debug', a)
 
+    @rpc(Integer(default=5), Integer, _returns=Integer)
+    def dflt(ctx, a, b):
+        # an argument with a declared default: what is not sent is the default
+        CAP['args'] = (a, b)
+        return a
+
     @rpc(_body_style='bare')
     def ign_empty(ctx):
         # the empty body style: nothing comes in, nothing is declared to go out
@@ -196,7 +202,7 @@ FUNCS = ['spyne.server.null._FunctionCall.__call__', 'spyne.server.null._cb_sync
          'spyne.application.Application.process_request', 'spyne.server._base.ServerBase.get_out_object',
          'spyne.protocol.dictdoc.hier.HierDictDocument.serialize', 'spyne.protocol.dictdoc.hier.HierDictDocument.deserialize']
 METHODS = ['show', 'first', 'two', 'two-ignored', 'nothing', 'noargs', 'outbare', 'bare', 'gen', 'boom', 'ign', 'ign_outbare', 'div', 'same2', 'arr2',
-           'ign_empty', 'echo', 'bare3']
+           'ign_empty', 'echo', 'bare3', 'dflt']
 
 
 @harness('C18', params=METHODS, functions=FUNCS,
@@ -227,6 +233,9 @@ def null_vs_wire(sx, m):
         pos, kw, body = (a, s), dict(echo=a, s=s), {'echo': a, 's': s}
     elif m == 'bare':
         pos, kw, body = (a, b, s), dict(x=a, y=b, label=s), {'x': a, 'y': b, 'label': s}
+    elif m == 'dflt':
+        # the first argument is left out (positional: passed as None), the second is given
+        pos, kw, body = (None, b), dict(b=b), {'b': b}
     elif m == 'bare3':
         pos, kw, body = (a, b, s, b), dict(x=a, y=b, label=s, z=b), {'x': a, 'y': b, 'label': s, 'z': b}
     else:
@@ -269,6 +278,8 @@ def null_vs_wire(sx, m):
             ok += [sx.eq(x, y) for x, y in zip(direct, doc)]
     else:
         ok.append(sx.eq(direct, doc))
+    if m == 'dflt':
+        ok.append(nargs is not None and len(nargs) == 2 and nargs[0] == 5 and sx.eq(nargs[1], b))
     if m == 'bare3':
         ok.append(nargs is not None and len(nargs) == 1 and isinstance(nargs[0], Point3) and sx.eq(nargs[0].z, b) and sx.eq(nargs[0].x, a))
     return sx.And(*ok)
